@@ -30,7 +30,7 @@ ASSUMPTIONS = [
     "Floating-point round-off is not modelled; formulas are compared as exact rational functions.",
     "Length(...).value() and Angle.parse are the length/angle resolvers (their tables are checked in C12 and R04.6).",
 ]
-FLOORS = {"R04.1": 12, "R04.2": 3, "R04.3": 20, "R04.4": 10, "R04.5": 20, "R04.6": 10}
+FLOORS = {"R04.1": 12, "R04.2": 3, "R04.3": 20, "R04.4": 10, "R04.5": 20, "R04.6": 10, "R04.8": 6, "R04.9": 1}
 
 
 def run(ctx):
@@ -41,9 +41,15 @@ def run(ctx):
     ctx.rule("R04.5", "formula conformance and derived identities")
     ctx.rule("R04.6", "angle units")
     ctx.rule("R04.7", "operator routing")
+    ctx.rule("R04.8", "an omitted optional argument defaults; it does not drop the function")
+    ctx.rule("R04.10", "length arguments are resolved before they are composed")
+    ctx.rule("R04.9", "every unit Length resolves is a unit the transform-argument recogniser knows")
     branches = dispatch(ctx)
     composition(ctx)
     branch_ops(ctx, branches)
+    optional_arguments(ctx, branches)
+    unit_alternatives(ctx)
+    unresolved_composition(ctx)
     sandwiches(ctx)
     formulas(ctx)
     angle_units(ctx)
@@ -132,6 +138,64 @@ def dispatch(ctx):
     return branches
 
 
+# --------------------------------------------------------------------------- R04.8 / R04.9
+def optional_arguments(ctx, branches):
+    """translate(tx [ty]), scale(sx [sy]), rotate(a [cx cy]), skew(ax [ay]) and the library's optional centres: reading a
+    missing argument raises IndexError from the parameter list.  A handler that only `continue`s drops the whole function; that
+    is acceptable for the first (mandatory) argument only - for an optional one the handler must apply the operation."""
+    n = 0
+    for key, body in sorted(branches.items()):
+        for t in [x for st in body for x in ast.walk(st) if isinstance(x, ast.Try)]:
+            idx = sorted({sub.slice.value for st in t.body for sub in ast.walk(st) if isinstance(sub, ast.Subscript) and isinstance(sub.slice, ast.Constant) and isinstance(sub.slice.value, int)})
+            takes_index = any("IndexError" in ast.unparse(h.type) if h.type is not None else True for h in t.handlers)
+            if not idx or not takes_index:
+                continue
+            for h in t.handlers:
+                applies = any(isinstance(c, ast.Call) and isinstance(c.func, ast.Attribute) and isinstance(c.func.value, ast.Name) and c.func.value.id == "self" and c.func.attr.startswith(("pre_", "post_"))
+                              for st in h.body for c in ast.walk(st))
+                drops = any(isinstance(st, ast.Continue) for st in h.body) and not applies
+                n += 1
+                ctx.ob("R04.8", "Matrix.parse[%s: argument %d missing]" % (key, idx[0] + 1), not (drops and idx[0] >= 1), "handler: %s" % "; ".join(ast.unparse(st)[:40] for st in h.body), h.lineno,
+                       "the function's argument %d is optional (CSS Transforms: a missing second value is 0 / equals the first); dropping the function makes `%s(a)` the identity" % (idx[0] + 1, key))
+    ctx.need(n >= 6, "R04.8", "IndexError handlers in the transform branches: %d found" % n)
+
+
+def unresolved_composition(ctx):
+    """`Length(p).value()` with no context returns a number only for the pixel family; for in/cm/mm, %, em, ... it returns the
+    Length itself.  The transform loop hands that to pre_translate / the centre of rotate/skew, i.e. into the matrix product, and
+    resolves e and f only afterwards in Matrix.render().  Sums of lengths of different units raise ValueError there
+    ('translate(10) translate(1in)'), and after a rotation a width-percentage sits in f and is resolved against the height."""
+    fn, loop = parse_loop(ctx)
+    calls = [c for c in ast.walk(loop) if isinstance(c, ast.Call) and isinstance(c.func, ast.Attribute) and c.func.attr == "value" and not c.args and not c.keywords
+             and isinstance(c.func.value, ast.Call) and call_name(c.func.value) == "Length"]
+    ctx.need(bool(calls) or "Length" not in ast.unparse(loop), "R04.10", "Matrix.parse: length argument conversion not found")
+    ctx.ob("R04.10", "Matrix.parse[lengths composed before they are resolved]", not calls,
+           "%d context-free Length(...).value() results go into pre_translate/pre_rotate/pre_skew (first at line %d)" % (len(calls), calls[0].lineno if calls else 0), loop.lineno,
+           "a length with a unit stays a Length object inside the matrix product until render(): mixed units raise ValueError and percentages lose their axis")
+
+
+def unit_alternatives(ctx):
+    m = ctx.m
+    units = m.consts.get("PATTERN_LENGTH_UNITS")
+    ctx.need(isinstance(units, str), "R04.9", "PATTERN_LENGTH_UNITS not a folded constant")
+    known = set(units.split("|"))
+    pct = m.consts.get("PATTERN_PERCENT")
+    if isinstance(pct, str):
+        known.add(pct)
+    # the units Length.value resolves: string constants compared with self.units
+    fn = ctx.fn("Length.value", "R04.9")
+    resolved = set()
+    for c in ast.walk(fn):
+        if isinstance(c, ast.Compare) and len(c.ops) == 1 and isinstance(c.ops[0], (ast.Eq, ast.In)) and attr_chain(c.left) == ["self", "units"]:
+            for x in ast.walk(c.comparators[0]):
+                if isinstance(x, ast.Constant) and isinstance(x.value, str) and x.value:
+                    resolved.add(x.value)
+    ctx.need(len(resolved) >= 10, "R04.9", "units resolved by Length.value: %s" % sorted(resolved))
+    missing = sorted(u for u in resolved if u not in known)
+    ctx.ob("R04.9", "PATTERN_LENGTH_UNITS[covers the units Length resolves]", not missing, "missing: %s; recogniser knows %s" % (missing, sorted(known)), 0,
+           "a unit the recogniser does not know is cut off the number: `translate(2ex)` becomes 2 user units")
+
+
 # --------------------------------------------------------------------------- R04.2
 def composition(ctx):
     fn, loop = parse_loop(ctx)
@@ -205,7 +269,9 @@ TABLE = {
     "scalex": {("pre_scale", ("F0", "c1"))},
     "scaley": {("pre_scale", ("c1", "F0"))},
     "rotate": {("pre_rotate", ("A0",)), ("pre_rotate", ("A0", "L1")), ("pre_rotate", ("A0", "L1", "L2"))},
-    "skew": {("pre_skew", ("A0", "A1")), ("pre_skew", ("A0", "A1", "L2")), ("pre_skew", ("A0", "A1", "L2", "L3"))},
+    # skew(a) = skew(a, 0) (CSS Transforms: "if the second parameter is not provided, it has a zero value"), spelled
+    # pre_skew(A0, 0), which EQUIV names pre_skew_x(A0)
+    "skew": {("pre_skew_x", ("A0",)), ("pre_skew", ("A0", "A1")), ("pre_skew", ("A0", "A1", "L2")), ("pre_skew", ("A0", "A1", "L2", "L3"))},
     "skewx": {("pre_skew_x", ("A0",)), ("pre_skew_x", ("A0", "L1")), ("pre_skew_x", ("A0", "L1", "L2"))},
     "skewy": {("pre_skew_y", ("A0",)), ("pre_skew_y", ("A0", "L1")), ("pre_skew_y", ("A0", "L1", "L2"))},
 }
